@@ -1152,4 +1152,96 @@ example : (frun CallerVariant.code oneShotFirst FSt.init
     [(1, .readOk 7 0 0 [9, 9, 9]), (2, .readOk 7 0 0 [9, 9, 9]), (2, .readOk 8 0 0 [5])] := by
   decide
 
+/-! ## Round 7: who owns the data of a write (the caller refills the buffer it passed to `write()`)
+
+"The device memory equals the written data" means the data AT THE TIME OF THE CALL.  Model: `refillSt` / `arun`
+(`AEv.refill tag data`: the application overwrites in place, same length, the buffer of `write(tag ..)`). -/
+
+/-- Tie A: the constructor keeps the caller's object (`self._data = data`); every other use of `self._data`:
+`_write_new_chunk` measures it, takes a slice as the chunk and REPLACES it by a fresh slice of the rest; `write_done`
+tests its length. -/
+theorem gen_write_data_ownership :
+    AliasVariant.code = ⟨false⟩ ∧
+    Gen.C06.writeDataUses = ["new_len = len(self._data)", "data = self._data[:new_len]", "self._data = self._data[new_len:]",
+      "len(self._data) > 0"] := by decide
+
+theorem dget?_map_snd {α : Type} (f : α → α) (l : List (Nat × α)) (k : Nat) :
+    dget? (l.map fun e => (e.1, f e.2)) k = (dget? l k).map f := by
+  induction l with
+  | nil => rfl
+  | cons e es ih => by_cases h : e.1 == k <;> simp [dget?, h, ih]
+
+/-- **A request that has been started owns its data**: a refill changes neither the read records nor the lock, and in
+every queue only the data of WAITING requests that were given that buffer - the head of every queue (the request in
+progress: its remaining chunks are what was passed to `write()`), all addresses, lengths, tags and the order are
+untouched; with no waiting request of that tag nothing changes at all.  So for every write that starts at once
+(`write()` on an empty queue) all exactness theorems hold whatever the caller does to its buffer afterwards. -/
+theorem refill_cannot_touch_started_requests (av : AliasVariant) (s : St) (tag : Nat) (data : List UInt8) :
+    (refillSt av s tag data).reads = s.reads ∧ (refillSt av s tag data).lock = s.lock ∧
+    (∀ id, ((refillSt av s tag data).queue id).head? = (s.queue id).head? ∧
+      ((refillSt av s tag data).queue id).map (fun w => (w.tag, w.addr, w.rest.length, w.left)) =
+        (s.queue id).map (fun w => (w.tag, w.addr, w.rest.length, w.left))) ∧
+    ((∀ e ∈ s.writes, ∀ w ∈ e.2.tail, w.tag ≠ tag) → refillSt av s tag data = s) := by
+  unfold refillSt
+  cases av.ctorCopies with
+  | true => simp
+  | false =>
+    simp only [Bool.false_eq_true, ↓reduceIte]
+    refine ⟨trivial, trivial, fun id => ?_, fun h => ?_⟩
+    · simp only [St.queue_def, dget?_map_snd]
+      cases dget? s.writes id with
+      | none => simp
+      | some q =>
+        cases q with
+        | nil => simp [refillQueue]
+        | cons hd tl =>
+          simp only [Option.map_some, Option.getD_some, refillQueue, List.head?_cons, List.map_cons, List.map_map, true_and,
+            List.cons.injEq]
+          apply List.map_congr_left
+          intro w _
+          simp only [Function.comp]
+          split
+          · rename_i hw; simp [hw.2]
+          · rfl
+    · have : (s.writes.map fun e => (e.1, refillQueue tag data e.2)) = s.writes := by
+        conv => rhs; rw [← List.map_id s.writes]
+        apply List.map_congr_left
+        intro e he
+        have h1 := h e he
+        cases hq : e.2 with
+        | nil => simp [refillQueue, ← hq]
+        | cons hd tl =>
+          rw [hq] at h1
+          have : (tl.map fun w => if w.tag = tag ∧ w.rest.length = data.length then { w with rest := data } else w) = tl := by
+            conv => rhs; rw [← List.map_id tl]
+            apply List.map_congr_left
+            intro w hw
+            have := h1 w (by simpa using hw)
+            simp [this]
+          simp only [refillQueue, this, id]
+          rw [← hq]
+      cases s; simp_all
+
+/-- **With a constructor that copies, refills are invisible**: the run is the run of the `Memory` events alone. -/
+theorem copying_constructor_ignores_refills (s : St) (es : List AEv) :
+    arun ⟨true⟩ s es = run Variant.fixed s (es.filterMap fun | .mem e => some e | .refill _ _ => none) := by
+  induction es generalizing s with
+  | nil => rfl
+  | cons e es ih =>
+    cases e with
+    | refill t d => simp only [arun, refillSt, ↓reduceIte, List.filterMap_cons]; exact ih s
+    | mem ev => simp only [arun, List.filterMap_cons, run_cons, ih]
+
+/-- **The code as it is**: a write queued behind another one still refers to the caller's buffer; refilled before it is
+started, the device is sent the NEW content (`9 9` instead of the `7 7` passed to `write`). -/
+theorem queued_write_aliases_caller_buffer_counterexample :
+    (arun AliasVariant.code St.init [.mem (.write 1 0 0 [1] false false), .mem (.write 2 0 4 [7, 7] false false),
+      .refill 2 [9, 9], .mem (.pkt 2 [0, 0, 0, 0, 0, 0])]).2 =
+    [.send 2 [0, 0, 0, 0, 0, 1], .send 2 [0, 4, 0, 0, 0, 9, 9], .writeOk 1 0 0] := by decide
+
+/-- a write that started at once: the refill after `write()` returned does not reach the second chunk -/
+example : (arun AliasVariant.code St.init [.mem (.write 1 0 0 (List.replicate 26 7) false false),
+      .refill 1 (List.replicate 26 9), .mem (.pkt 2 [0, 0, 0, 0, 0, 0])]).2.getLast? =
+    some (.send 2 [0, 25, 0, 0, 0, 7]) := by decide
+
 end CfVerif.C06
